@@ -69,6 +69,15 @@ class AliasPolicy(BasePolicy):
                 return self.eval(expr.args[0], state, flow)
             if isinstance(expr.func, ast.Attribute) and expr.func.attr in ("reshape", "ravel", "squeeze", "view", "transpose") :
                 return self.eval(expr.func.value, state, flow)
+            if isinstance(expr.func, ast.Attribute) and expr.func.attr == "astype":
+                # astype(t, copy=False) returns the array itself when the dtype already matches
+                cp = kw(expr, "copy") or (expr.args[4] if len(expr.args) > 4 else None)
+                if cp is not None and not (isinstance(cp, ast.Constant) and cp.value is True):
+                    return self.eval(expr.func.value, state, flow)
+            if n in ("np.array",) and expr.args:
+                cp = kw(expr, "copy")
+                if cp is not None and not (isinstance(cp, ast.Constant) and cp.value is True):
+                    return self.eval(expr.args[0], state, flow)  # np.array(x, copy=False)
             return self.summarise_call(expr, state, flow)
         if isinstance(expr, ast.Attribute) and expr.attr == "T":
             return self.eval(expr.value, state, flow)
